@@ -44,11 +44,18 @@ def to_program(hist, sym, kind, tid):
     inputs, steps = {}, []
     for st in hist:
         st = dict(st)
-        if st["op"] == "new":
+        if st["op"] == "new" and "vdesc" in st:
+            vd = dict(st["vdesc"])
+            inputs[st["out"][0]] = {"kind": "vector", "sym": sym, "dtype": "float64",
+                                    "blocks": [{"c": list(dict(e)["c"]), "d": dict(e)["d"]} for e in vd["blocks"]],
+                                    "fill": {"start": vd["start"], "step": 1, "alt": True}}
+        elif st["op"] == "new":
             inputs[st["out"][0]] = _desc(st["desc"], sym, kind)
         else:
             args = _plain(dict(st["args"]))
             args.pop("x", None)
+            if st["op"] == "einsum":
+                args["eq"] = "".join(chr(96 + c) for c in args["lhs"]) + "->" + "".join(chr(96 + c) for c in args["rhs"])
             steps.append({"op": st["op"], "in": list(st["in"]), "out": list(st["out"]), "args": args,
                           "entry": st.get("entry", "method")})
     return {"tid": tid, "inputs": inputs, "steps": steps, "model_descs": True}
